@@ -163,7 +163,18 @@ def reported(M, paths, sc, by_text, what):
     return message_names(errs, by_text), p
 
 
-def filing_contract(cfg, g):
+def result_dict_roles(cf):
+    """local dictionaries of check_file that end up under 'errors' / 'warnings' of the returned dictionary: {variable: role}"""
+    roles = {}
+    for n in ast.walk(cf.node):
+        if isinstance(n, ast.Return) and isinstance(n.value, ast.Dict):
+            for k, v in zip(n.value.keys, n.value.values):
+                if isinstance(k, ast.Constant) and k.value in ("errors", "warnings") and isinstance(v, ast.Name):
+                    roles[v.id] = k.value
+    return roles
+
+
+def filing_contract(cfg, g, dict_roles=None):
     """a leaf closure of check_file that files diagnostics. Two shapes, derived from its own abstract paths:
     {"kind": "files", obj, errors, warnings}: parameters that are the key, the value under 'errors', the value under 'warnings';
     {"kind": "checks", obj, check}: it applies the check function it is handed to the object and files the two results.
@@ -183,6 +194,8 @@ def filing_contract(cfg, g):
                 applied.add((e.recv.t[1], e.args[0].t[1]))
             if e.kind == "local" and e.op == "setitem" and e.recv is not None and e.key is not None and e.args:
                 which = [x[1] for x in subterms(e.recv.t) if x and x[0] == "const" and x[1] in ("errors", "warnings")]
+                if not which and dict_roles and e.recv.t and e.recv.t[0] == "free" and e.recv.t[1] in dict_roles:
+                    which = [dict_roles[e.recv.t[1]]]        # a dictionary of its own that the caller returns under that key
                 if len(which) != 1 or e.key.t[0] != "param":
                     return None
                 v = e.args[0].t
@@ -206,7 +219,9 @@ def filing_contract(cfg, g):
                 continue
             dec = {a[1]: v for a, v in p.decisions if a[0] == "truthy"}
             stored = {x[1] for e in p.events if e.kind == "local" and e.op == "setitem" for x in subterms(e.recv.t)
-                      if x and x[0] == "const" and x[1] in ("errors", "warnings")}
+                      if x and x[0] == "const" and x[1] in ("errors", "warnings")} | \
+                     {dict_roles[e.recv.t[1]] for e in p.events if e.kind == "local" and e.op == "setitem" and dict_roles and e.recv is not None
+                      and e.recv.t and e.recv.t[0] == "free" and e.recv.t[1] in dict_roles}
             if dec.get(pe_atom, True) and "errors" not in stored:
                 return False
             if dec.get(pw_atom, True) and "warnings" not in stored:
@@ -239,7 +254,7 @@ def traversal_rule(M, rep, R1, vm):
     for n, g in getattr(cf, "nested", {}).items():
         if any(isinstance(x, (ast.For, ast.While)) for x in ast.walk(g.node)):
             continue
-        k = filing_contract(c.cfg, g)
+        k = filing_contract(c.cfg, g, result_dict_roles(cf))
         if k is not None:
             contracts[g.qual] = k
             c.cfg.opaque[g.qual] = ("const", None)
